@@ -583,6 +583,9 @@ C07_Accept(c, trk, call, o) ==
   THEN AcceptCtor(call, o)
   \* read-back: accessors applied to a structure built from constructed tags decode what was stored
   ELSE IF trk.img = "info" /\ IsInfoRead(call) THEN C04_Accept(c, trk, call, o)
+  \* ... also through the iterators (tags, modules, EFI descriptors, ELF sections) of the built structure
+  ELSE IF trk.img = "info" /\ call.op \in {"tags", "module_tags", "efi_areas", "elf_sections", "next", "len", "size_hint", "nth", "count", "last"}
+       THEN C03_Accept(c, trk, call, o) /\ C18_Accept(c, trk, call, o) /\ C19_Accept(c, trk, call, o)
   ELSE IF trk.img = "header" /\ (IsHdrRead(call) \/ call.op = "hacc") THEN C11_Accept(c, trk, call, o)
   ELSE TRUE
 \* C17 (build side): string tags store the text and exactly one terminating NUL
